@@ -2,6 +2,7 @@ package govc
 
 import (
 	"fmt"
+	"os"
 	"go/token"
 	"go/types"
 	"sort"
@@ -27,6 +28,8 @@ type Obligation struct {
 	Script    *Script
 	Epilogue  []string
 	slicedEpi []string
+	Part      int // conjunct index when a clause was split into several queries (0 = not split)
+	Parts     int
 }
 
 type Probe struct {
@@ -187,6 +190,19 @@ func (x *Exec) addObl(o *Obligation) {
 	o.Script = x.sc
 	o.ScriptLen = x.sc.Len()
 	o.Func = x.root.String()
+	// one query per conjunct: small goals are decided quickly and stably
+	if os.Getenv("GOVC_SPLIT") != "" && !o.ExpectSat && o.Kind != "safe" && o.Kind != "frame" {
+		if parts := splitGoal(o.Goal); len(parts) > 1 && len(parts) <= 40 {
+			for i, g := range parts {
+				c := *o
+				c.Goal = g
+				c.Part = i + 1
+				c.Parts = len(parts)
+				x.obls = append(x.obls, &c)
+			}
+			return
+		}
+	}
 	x.obls = append(x.obls, o)
 }
 
